@@ -108,3 +108,15 @@ DT_SHORT = {"float64": "f64", "float32": "f32", "int64": "i64", "int32": "i32"}
 def tol_for(*units):
     """Relative tolerance for quantities expressed in these units (None = the default 1e-9)."""
     return U.tol_for(*[ou(u) if isinstance(u, str) else u for u in units])
+
+
+def is_vec(o):
+    """An osyris Vector (by class, not by private attributes)."""
+    import osyris
+    return isinstance(o, osyris.Vector)
+
+
+def vcomps(v):
+    """The components of a Vector as an ordered dict name -> Array, read through the PUBLIC attributes x, y, z
+    (the components the Vector has now)."""
+    return {c: getattr(v, c) for c in "xyz" if getattr(v, c, None) is not None}
